@@ -139,6 +139,8 @@ struct Sess {
     s2c: [u8; 32],
     up: Ledger,
     down: Ledger,
+    /// the connection responses this client sent during its handshake (replayed after the session has ended)
+    responses: Vec<Vec<u8>>,
 }
 
 struct World {
@@ -215,6 +217,7 @@ fn build(r: &mut Rng, nsess: usize, timeout: i32, run_seed: u64, mode: &'static 
             s2c,
             up: Ledger::default(),
             down: Ledger::default(),
+            responses: wire.iter().filter(|(from_client, b)| *from_client && prefix_type(b[0]) == 3).map(|(_, b)| b.clone()).collect(),
         };
         // datagrams exchanged during the handshake that went through the replay windows
         for (from_client, b) in wire.iter() {
@@ -997,6 +1000,25 @@ pub fn one_run(ctx: &Ctx, out: &mut Outcome, run_seed: u64) {
             w.sess[t].up.add(&b, K_DISC, Vec::new(), true);
             out.count("genuine_disconnect");
             if present(&mut w, ctx, out, Dir::Up, Some(t), &b, "genuine-disconnect") {
+                // the session is over at the server. Late duplicates of the client's connection response(s) - without a
+                // new request, so no half-open session exists for them - arrive before the replays: they must not give
+                // the finished session's datagrams a second life
+                if r.chance(1, 2) && !w.srv.s.is_client_connected(w.sess[t].id) {
+                    let from = w.sess[t].addr;
+                    for resp in w.sess[t].responses.clone() {
+                        out.count("late_response_duplicates_after_session_end");
+                        match guarded("NetcodeServer::process_packet", &resp, || w.srv.process(from, &resp)) {
+                            Err(c) => {
+                                report_panic(ctx, out, "C04", "NetcodeServer::process_packet", &resp, &c, w.run_seed, w.mode, &w.hist);
+                                return;
+                            }
+                            Ok(res) => w.hist.push(format!("Up late-response-duplicate-after-session-end len={} -> {}", resp.len(), res.kind())),
+                        }
+                    }
+                    if w.srv.s.is_client_connected(w.sess[t].id) {
+                        out.count("session_reopened_by_a_late_response_duplicate");
+                    }
+                }
                 for _ in 0..20.min(presented.len()) {
                     let p = pool[*r.pick(&presented)].clone();
                     if !present(&mut w, ctx, out, p.dir, Some(p.sess), &p.bytes, "replay-after-disconnect") {
